@@ -138,6 +138,17 @@ def generate(tier, seed):
             ps = ['g', '%s!(%s)' % (mode, EQ_OPERANDS[k])]
             ks = ['i32', k]
         cases.append(dict(kinds=ks, alts=[ps], guard=guards[i % len(guards)], form='disj'))
+    # (4d) several ne! (and eq!/ne! mixes) in one arm: each operand is its own `!=` / `==` term of a conjunction
+    multi = [
+        (['i32', 'i32'], ['ne!(&7)', 'ne!(&9)']),
+        (['i32', 'char'], ['ne!(&7)', "ne!(&'q')"]),
+        (['i32', 'i32', 'i32'], ['ne!(&1)', 'ne!(&2)', 'ne!(&3)']),
+        (['opt', 'i32'], ['ne!(&Some(1))', 'ne!(&7)']),
+        (['i32', 'i32', 'bool'], ['ne!(&7)', 'eq!(&9)', 'ne!(&true)']),
+        (['tuple', 'tuple'], ['ne!(&(1, true))', 'ne!(&(2, false))']),
+    ]
+    for ks, ps in (multi if tier != 'quick' else multi[:4]):
+        cases.append(dict(kinds=ks, alts=[ps], guard=None, form='simple'))
     # (4c) eq!/ne! operands in different alternatives (same operand type, different values), with and without a shared position
     eq2 = {'i32': ('&7', '&9'), 'char': ("&'q'", "&'r'"), 'opt': ('&Some(1)', '&Some(2)'), 'tuple': ('&(1, true)', '&(2, false)')}
     combos = [(3, 2, 0), (3, 0, 2), (3, 1, 1), (2, 0, 1), (2, 1, 0), (3, 1, 2), (3, 2, 1), (2, 0, 0)]
